@@ -36,6 +36,7 @@ type Engine struct {
 	axioms    []*Lemma
 	axiomPkg  map[*Lemma]string
 	lemmas    []*Lemma
+	globalInvs map[string][]*Lemma // package -> global invariants
 	lemmaPkg  map[*Lemma]string
 	rawSMT    []string
 
@@ -57,6 +58,7 @@ func NewEngine(repo string) *Engine {
 		ghosts:    map[string][]*GhostField{},
 		bvTypes:   map[string]bool{},
 		axiomPkg:  map[*Lemma]string{},
+		globalInvs: map[string][]*Lemma{},
 		lemmaPkg:  map[*Lemma]string{},
 		typeIDs:   map[string]int{},
 		typeByID:  []types.Type{nil},
@@ -315,6 +317,7 @@ func (e *Engine) addContractText(pkg, path, text string, goFile bool) error {
 		e.axioms = append(e.axioms, a)
 		e.axiomPkg[a] = cf.Pkg
 	}
+	e.globalInvs[cf.Pkg] = append(e.globalInvs[cf.Pkg], cf.Invs...)
 	for _, l := range cf.Lemmas {
 		e.lemmas = append(e.lemmas, l)
 		e.lemmaPkg[l] = cf.Pkg
